@@ -42,13 +42,22 @@ def extract_make_sincs(facts):
     loops = [s["e"] for s in fn["body"]["stmts"] if s["k"] in ("semi", "expr") and s["e"].get("k") == "for"]
     arg = None
     xname = None
+    def body_lets(blk, upto=None):
+        """immutable lets of a loop body, each with the earlier ones substituted (named sub-expressions read like the unsplit expression)"""
+        env_l = {}
+        for st_ in blk["stmts"]:
+            if st_ is upto:
+                break
+            if st_["k"] == "let" and st_["pat"]["k"] == "pident" and not st_["pat"].get("mut") and st_.get("init") is not None:
+                env_l[st_["pat"]["name"]] = ir.subst(st_["init"], env_l)
+        return env_l
     for lp in loops:
         names = ir.pat_names(lp["pat"])
         for st in lp["body"]["stmts"]:
             if st["k"] == "let" and st.get("init") is not None:
                 for c in walk(st["init"]):
                     if c.get("k") == "call" and is_path(c["f"], "sinc") and len(c["args"]) == 1:
-                        arg = c["args"][0]
+                        arg = ir.subst(c["args"][0], body_lets(lp["body"], upto=st))
                         xname = names[0] if names else None
                         m["sample_loop"] = lp
                         m["val_expr"] = st["init"]
@@ -87,6 +96,16 @@ def extract_make_sincs(facts):
                 outer = lp
     if fill is None:
         raise ir.AnchorMissing("make_sincs: table fill sincs[..][..] = ..")
+    # lets of the block that contains the assignment (sub-expressions given names) are substituted back
+    fenv = {}
+    for x_ in walk(outer["body"]):
+        if x_.get("k") == "block" and any((s_.get("e") if s_.get("k") in ("semi", "expr") else None) is fill for s_ in x_["stmts"]):
+            fenv = body_lets(x_)
+    if outer["body"].get("k") == "block" and any((s_.get("e") if s_.get("k") in ("semi", "expr") else None) is fill for s_ in outer["body"]["stmts"]):
+        fenv = body_lets(outer["body"])
+    fill = dict(fill)
+    fill["l"] = ir.subst(fill["l"], fenv)
+    fill["r"] = ir.subst(fill["r"], fenv)
     row = alg.conv(fill["l"]["e"]["i"])
     col = alg.conv(fill["l"]["i"])
     rhs = fill["r"]
